@@ -20,6 +20,9 @@ CLAIMED = {
  'C07': ('E-MIR fork mode: validate_props_and_rename_vars from MIR on tree skeletons with symbolic variable names (solver decides every equality pattern) against a scope-checker + depth-naming oracle',
          'accept/reject exactly as the binding rules say; accepted result equals the depth-named alpha-equivalent tree; number of names == nesting depth; idempotent; natively replayed.',
          '23 skeletons, names of 1-2 symbolic characters', '4/C07'),
+ 'C08': ('E-MIR fork mode: parse_and_minimize_extended_formula from MIR on rewritten texts with symbolic whitespace characters / symbolic variable names / enumerated parenthesis, spelling and constant choices',
+         'the preprocessed tree of every rewritten text is identical to that of the base text (so evaluation cannot differ); concrete variants are additionally compared natively on result BDDs.',
+         '6 base formulas; <= 2 (3) inserted symbolic whitespace characters; names of <= 2 (3) symbolic characters', '4/C08'),
  'C09': ('E-MIR fork mode: canonize_subform / get_canonical_and_renaming / mark_duplicates_canonized_multiple from MIR with symbolic labels, all binding patterns and nondeterministic container orders, against an independent canoniser and an alpha-equivalence decision',
          'same canonical form <=> equal up to renaming (all pairs of sub-formulas), renaming maps free variables injectively to their canonical names, idempotence, and every reported duplicate with counter m has >= m+1 occurrences with identical free-variable domains, under three iteration-order policies; replayed natively through a feature-gated re-export.',
          '13 preprocessed formula shapes x all binding choices; lists of <= 2 trees', '4/C09'),
@@ -31,10 +34,16 @@ CLAIMED = {
          'is_attractor_pattern / is_fixed_point_pattern are true iff the tree is exactly the pattern (all skeletons of the shape, symbolic names); patterns at top level, under operators, under quantifiers, inside restricted scopes, in batches and near-misses evaluate to the semantics of the formula as written.', TB, '4/C12'),
  'C13': ('E-MIR merge-mode bounded model checking of eval_ew/eval_aw from MIR (z3) + E-UNI equivalence with explicit semantics (z3)',
          'eval_ew / eval_aw executed from MIR equal both definitions of weak until (E[U] or EG; greatest fixed point) for all transition systems with n<=3 variables; formulas containing EW/AW are decided end to end against the explicit semantics on universal instances.', TB, '4/C13'),
+ 'C14': ('E-MIR fork mode with panics as path outcomes: model_check_multiple_extended_formulae from MIR on symbolic strings / templates with symbolic edits / label subsets / k, against an independent classifier; native sweep of mutated strings',
+         'no explored path ends in a panic, and Ok/Err coincides with the classifier (syntax, binding rules, proposition names, context labels, nesting depth vs spare variable sets); evaluation of accepted inputs continues on the symbolic 2-variable model so that the unwrap/unreachable sites of eval_node and sanitizing are inside the explored paths.',
+         TB + '; strings <= 2 (3) symbolic characters; one symbolic character per template', '4/C14'),
  'C15': ('E-UNI: z3 miter sanitised vs raw vs semantics for k = depth..depth+2 + E-MIR: sanitizing entry points from MIR with the transfer_from contract',
          'sanitised BDD == raw BDD == semantics for every colour, identical for every number of spare variable sets, in the canonical context of SymbolicAsyncGraph::new; sanitize_colored_vertices executed from MIR never reaches its unwrap failure (results independent of auxiliary variables).', TB, '4/C15'),
  'C18': ('E-MIR: model_check_formula_unsafe_ex and eval_node with a free symbolic steady-state set from MIR + E-UNI miters',
          'on the fragment the variant equals the standard semantics and eval_node does not depend on the steady-state argument at all (two free symbols); on networks without steady states every formula agrees; natively: BDD miter unsafe_ex vs standard, restricted to steady-state-free colours outside the fragment.', TB, '4/C18'),
+ 'C19': ('translation validation: converter functions executed from the MIR of the binary (model of the BooleanNetwork API) and the real binary run on the same skeletons; z3 decides {outputs(.,c)} == {instantiations} with all truth tables, constants and inputs as solver variables (two quantified obligations)',
+         'for every skeleton the tuple of output update functions ranges over exactly the instantiations of the input functions; explicit functions are equivalent; targets are exactly the variables with a regulator or a function.',
+         'skeletons with <= 3 (4) variables, arity <= 3; bnet expression parser of the harness; model of BooleanNetwork/FnUpdate for the MIR layer', '4/C19', 'translation_validation'),
  'C20': ('E-UNI: result(state, colour) == explicit semantics on the transition system of that colour, for all colours (z3) + native runs on solver-enumerated instantiated networks + E-MIR colour non-interference',
          'the slice of the parametrised answer at every colour equals the semantics of that colour\'s network; slices of solver-enumerated distinct colours equal model_check_formula on the instantiated fully specified networks; kernels are non-interfering between colours.', TB + '; benchmark models outside', '4/C20'),
 }
